@@ -16,13 +16,13 @@ import (
 )
 
 type race struct {
-	Peers    int   `json:"peers"`
-	Pre      int   `json:"pre"`      // connections established before the race
-	Sends    int   `json:"sends"`    // racing sends
-	Inbound  int   `json:"inbound"`  // racing inbound connections
-	Deliver  int   `json:"deliver"`  // racing deliveries on established connections
-	Stops    int   `json:"stops"`    // racing Stop calls
-	Spin     []int `json:"spin"`     // busy-loop iterations before each operation acts (schedule perturbation, not an oracle)
+	Peers   int   `json:"peers"`
+	Pre     int   `json:"pre"`     // connections established before the race
+	Sends   int   `json:"sends"`   // racing sends
+	Inbound int   `json:"inbound"` // racing inbound connections
+	Deliver int   `json:"deliver"` // racing deliveries on established connections
+	Stops   int   `json:"stops"`   // racing Stop calls
+	Spin    []int `json:"spin"`    // busy-loop iterations before each operation acts (schedule perturbation, not an oracle)
 }
 
 func genRace(rng *rand.Rand, tcp bool) input {
